@@ -163,6 +163,18 @@ def input_prefs(ts, salt=0):
     return prefs
 
 
+def jsonable(o):
+    if isinstance(o, np.ndarray):
+        return [jsonable(v) for v in o.tolist()]
+    if isinstance(o, dict):
+        return {str(k): jsonable(v) for k, v in o.items()}
+    if isinstance(o, (list, tuple)):
+        return [jsonable(v) for v in o]
+    if isinstance(o, (np.floating, np.integer)):
+        return o.item()
+    return o
+
+
 def bits(x):
     """Bit pattern of a result (tuple of arrays / None / floats) for exact comparison."""
     out = []
@@ -211,7 +223,7 @@ def _pollution_mesh(info, mesh, salt):
 
 
 def _real_kernel_model(name):
-    info = core.load_model_info(name)
+    info = core.load_model_info(py_model_name(name))
     if callable(info.Iq) and info.composition is None:
         return core.build_model(info)
     return C.real_model(name)
@@ -509,7 +521,7 @@ def generic_pars(info, pars0, m=None):
 def _o2_kernel_handler(ctx):
     def mk(pi, wlabel, diffs, log):
         def handler(m):
-            info = core.load_model_info(ctx["name"])
+            info = core.load_model_info(py_model_name(ctx["name"]))
             pars = generic_pars(info, ctx["pars0"], m)
             q = [[0.0125, 0.125]] if ctx["dim"] == "1d" else [[0.0125], [0.03125]]
             changed, detail = real_o2_kernel(ctx["name"], ctx["dim"], ctx["entry"], q, pars, 0.0, ctx["mono"])
@@ -520,7 +532,7 @@ def _o2_kernel_handler(ctx):
                             "caller's dict: %s)" % (ctx["entry"], ctx["name"], wlabel.split(":")[1],
                                                     (changed.get(wlabel) or diffs)[:3], log[:4]),
                     "inputs": {"replay": "o2-kernel", "model": ctx["name"], "dim": ctx["dim"],
-                               "entry": ctx["entry"], "q": q, "pars": pars, "mono": ctx["mono"], "watch": wlabel},
+                               "entry": ctx["entry"], "q": q, "pars": jsonable(pars), "mono": ctx["mono"], "watch": wlabel},
                     "detail": detail, "block": None}
         return handler
     return mk
@@ -639,7 +651,7 @@ def unit_py(cfg):
     u.functions("sasmodels.kernelpy.PyModel.make_kernel", "sasmodels.kernelpy.PyInput.__init__",
                 "sasmodels.kernelpy.PyKernel.__init__", "sasmodels.kernelpy.PyKernel._call_kernel",
                 "sasmodels.kernelpy._loops", "sasmodels.kernelpy._create_default_functions")
-    ctx = dict(name=path, dim=dim, entry=entry, mono=False, disp=disp, length=length, magnetic=magnetic,
+    ctx = dict(name=name, dim=dim, entry=entry, mono=False, disp=disp, length=length, magnetic=magnetic,
                pars0=pars0, paths=paths, family="py")
     judge(u, label, paths, _o1_kernel_handler(ctx), _o2_kernel_handler(ctx), sample_ctx={"config": label})
     return u.r
@@ -795,9 +807,11 @@ SV_OPS = {0: "fresh class (no compiled model cached)",
 def sasview_set(m, req):
     for k, v in req["params"].items():
         m.setParam(k, v)
-    for par, d in req["disp"].items():
-        for k, v in d.items():
-            m.setParam("%s.%s" % (par, k), v)
+    for par, (values, wts) in req["disp"].items():
+        # an array distribution: the caller's (values, weights) reach the mesh as they are
+        disperser = weights.ArrayDispersion()
+        disperser.set_weights(values, wts)
+        m.set_dispersion(par, disperser)
     m.cutoff = req["cutoff"]
 
 
@@ -823,7 +837,7 @@ def sasview_prefix(Model, op, req, pre, q, entry):
     return Model() if op == 2 else other.clone()
 
 
-def sasview_reqs(info, dim, disp, magnetic, tag):
+def sasview_reqs(info, dim, disp, magnetic, tag, length=2):
     pars = {}
     p = info.parameters
     for par in p.user_parameters({}, is2d=True):
@@ -837,8 +851,8 @@ def sasview_reqs(info, dim, disp, magnetic, tag):
         pars[par.name] = symx.real("%sv.%s" % (tag, par.name))
     d = {}
     if disp:
-        d[disp] = {"width": symx.real("%spd.%s" % (tag, disp)), "npts": 3,
-                   "nsigmas": symx.real("%snsigma.%s" % (tag, disp))}
+        d[disp] = (symx.oarray([symx.real("%sd.%d" % (tag, i)) for i in range(length)]),
+                   symx.oarray([symx.real("%sw.%d" % (tag, i)) for i in range(length)]))
     return {"params": pars, "disp": d, "cutoff": symx.real("%scutoff" % tag) if tag == "in." else 0.0}
 
 
@@ -851,7 +865,7 @@ def unit_sasview(cfg):
     install_shims()
     km = KModel.get(name)
     info = km.info
-    req = sasview_reqs(info, dim, disp, magnetic, "in.")
+    req = sasview_reqs(info, dim, disp, magnetic, "in.", length)
     pre = sasview_reqs(info, dim, None, None, "pre.")
     op_t = z3.Int("pre.op")
     A = [op_t >= 0, op_t <= 3]
@@ -892,6 +906,7 @@ def unit_sasview(cfg):
                 "sasmodels.sasview_model.SasviewModel.setParam", "sasmodels.sasview_model.SasviewModel.clone",
                 "sasmodels.sasview_model.SasviewModel.calculate_Iq", "sasmodels.sasview_model.SasviewModel._calculate_Iq",
                 "sasmodels.sasview_model.SasviewModel.evalDistribution", "sasmodels.sasview_model.SasviewModel._get_weights",
+                "sasmodels.sasview_model.SasviewModel.set_dispersion", "sasmodels.weights.ArrayDispersion.set_weights",
                 "sasmodels.weights.Dispersion.get_weights (trivial distributions, limits test)")
     ctx = dict(name=name, dim=dim, entry=entry, req=req, paths=paths, family="sasview")
     judge(u, label, paths, _o1_sasview_handler(ctx), _o2_sasview_handler(ctx), sample_ctx={"config": label},
@@ -899,22 +914,54 @@ def unit_sasview(cfg):
     return u.r
 
 
+class _FillNp:
+    """numpy whose ``empty`` returns memory with a chosen content.  Used by the
+    replays of entry points that allocate their kernel inside the call: what
+    ``np.empty`` hands out there is whatever an earlier call left on the heap,
+    which a replay cannot steer through the public interface."""
+
+    def __init__(self, fill):
+        self._fill = fill
+
+    def __getattr__(self, name):
+        return getattr(np, name)
+
+    def empty(self, shape, dtype=float, *a, **kw):
+        out = np.empty(shape, dtype, *a, **kw)
+        if out.dtype.kind == "f":
+            out.ravel()[:] = self._fill + 0.125 * np.arange(out.size)
+        return out
+
+
+@contextlib.contextmanager
+def heap_content(fill):
+    saved = kerneldll.np, kernelpy.np
+    kerneldll.np = kernelpy.np = _FillNp(fill)
+    try:
+        yield
+    finally:
+        kerneldll.np, kernelpy.np = saved
+
+
 def real_sasview(name, entry, req, pre, q, ops=(0, 1, 2, 3)):
     """The request on the real SasviewModel after each prefix of operations
-    (new class object per run, so each starts without a compiled model)."""
+    (new class object per run, so each starts without a compiled model), with
+    two different contents of the uninitialised memory."""
     from sasmodels import sasview_model
     outs, errs = [], []
     qv = [np.asarray(v, dtype=float) for v in q]
     for op in ops:
-        Model = sasview_model._make_standard_model(name)
-        try:
-            m = sasview_prefix(Model, op, req, pre, qv, entry)
-            sasview_set(m, req)
-            outs.append(bits(sasview_request(m, req, qv, entry)))
-            errs.append(None)
-        except Exception as e:
-            outs.append(("raise:" + type(e).__name__).encode())
-            errs.append(repr(e))
+        for fill in (3.25, -17.5):
+            Model = sasview_model._make_standard_model(name)
+            try:
+                with heap_content(fill):
+                    m = sasview_prefix(Model, op, req, pre, qv, entry)
+                    sasview_set(m, req)
+                    outs.append(bits(sasview_request(m, req, qv, entry)))
+                errs.append(None)
+            except Exception as e:
+                outs.append(("raise:" + type(e).__name__).encode())
+                errs.append(repr(e))
     return outs, errs
 
 
@@ -949,7 +996,7 @@ def _o1_sasview_handler(ctx):
                         "what": "SasviewModel(%s).%s: the same request gives different results after different "
                                 "histories (%s | %s)" % (ctx["name"], ctx["entry"], ops[0], ops[1]),
                         "inputs": {"replay": "sasview", "model": ctx["name"], "dim": ctx["dim"], "entry": ctx["entry"],
-                                   "req": req, "pre": pre, "q": q},
+                                   "req": jsonable(req), "pre": jsonable(pre), "q": q},
                         "detail": {"exceptions": errs, "identical": not rep}, "block": None}
             return handler
         return mk
@@ -990,7 +1037,504 @@ def _o2_sasview_handler(ctx):
                     "what": "SasviewModel(%s).%s modifies %s: %s" % (ctx["name"], ctx["entry"], wlabel,
                                                                      (changed.get(wlabel) or diffs)[:3]),
                     "inputs": {"replay": "o2-sasview", "model": ctx["name"], "dim": ctx["dim"],
-                               "entry": ctx["entry"], "req": req, "q": q, "watch": wlabel},
+                               "entry": ctx["entry"], "req": jsonable(req), "q": q, "watch": wlabel},
                     "detail": detail, "block": None}
         return handler
     return mk
+
+
+# --------------------------------------------------------------------------
+# family E: DirectModel (cached kernel, Iq_calc / results attributes) and the
+# Iq / Iqxy helper functions
+
+def direct_data(dim, smear):
+    from sasmodels import data as sdata
+    if dim == "1d":
+        d = sdata.empty_data1D(np.array([0.0125, 0.125]), resolution=0.05 if smear else 0.0)
+        if not smear:
+            d.dx = None
+        return d
+    return sdata.empty_data2D(np.array([0.0125]), np.array([0.03125]), resolution=0.0)
+
+
+def data_arrays(data):
+    return {k: v for k, v in vars(data).items() if isinstance(v, (np.ndarray, float, int, str, type(None)))}
+
+
+def direct_pars(info, dim, disp, tag):
+    pars = dll_pars(info, dim, disp, None, "call_kernel")
+    if tag != "in.":
+        pars = {k: (symx.real(tag + str(v.t)[3:]) if isinstance(v, Sym) else v) for k, v in pars.items()}
+    return pars
+
+
+def direct_request(kind, name, model, data, pars, prior_dm=None):
+    """One evaluation through the chosen interface; returns (result, DirectModel or None)."""
+    if kind == "DirectModel":
+        dm = prior_dm if prior_dm is not None else direct_model.DirectModel(data, model, cutoff=0.0)
+        out = dm(**pars)
+        return (out, dm.Iq_calc, None if dm.results is None else dm.results()), dm
+    if kind == "Iq":
+        return direct_model.Iq(name, data.x, **pars), None
+    return direct_model.Iqxy(name, data.qx_data, data.qy_data, **pars), None
+
+
+DM_OPS = {0: "fresh objects", 1: "the same DirectModel / interface evaluated before with other parameter values"}
+
+
+def unit_direct(cfg):
+    name, dim, disp, length, kind, smear = cfg
+    label = "direct/%s/%s/%s/%s%s" % (name, dim, kind, "%s=%d" % (disp, length) if disp else "mono",
+                                      "/pinhole" if smear else "")
+    u = Unit(label, timeout_ms=60000)
+    install_shims()
+    km = KModel.get(name)
+    info = km.info
+    pars0 = direct_pars(info, dim, disp, "in.")
+    pre0 = direct_pars(info, dim, None, "pre.")
+    op_t = z3.Int("pre.op")
+    A = [op_t >= 0, op_t <= 1]
+
+    def fn():
+        _GW["calls"], _GW["length"] = 0, length
+        builds = []
+        data = direct_data(dim, smear)
+        W = Watch()
+        W.add("%s:data" % kind, data_arrays(data))
+        with patched_build(lambda i: km.make_model(), builds):
+            model = core.build_model(info)
+            op = int(Sym(op_t))
+            dm = None
+            if op == 1:
+                _res, dm = direct_request(kind, name, model, data, dict(pre0))
+            pars = RecDict(pars0)
+            W.add("%s:pars" % kind, pars)
+            sink = []
+            with watched_kernel_args(W, sink):
+                r = run_entry(lambda: direct_request(kind, name, model, data, pars, dm)[0], W)
+            # the data object is still what the caller built
+            W.items[0] = (W.items[0][0], data_arrays(data), W.items[0][2])
+            r["watch"] = W.check()
+        r["mesh"] = sink[-1][0] if sink else None
+        r["pre_state"] = 1 + op
+        r["notes"] = {"prefix": DM_OPS[op], "build_model_calls": len(builds)}
+        return r
+
+    ex = symx.Explorer(timeout_ms=20000, max_paths=600, abstract=True, int_range=8)
+    paths = ex.explore(fn, A)
+    u.absorb(ex, paths)
+    u.reachable(label, A)
+    u.functions("sasmodels.direct_model.DirectModel.__init__", "sasmodels.direct_model.DataMixin._interpret_data",
+                "sasmodels.direct_model.DirectModel.__call__", "sasmodels.direct_model.DataMixin._calc_theory",
+                "sasmodels.direct_model.Iq", "sasmodels.direct_model.Iqxy", "sasmodels.direct_model._direct_calculate",
+                "sasmodels.resolution.Perfect1D.apply", "sasmodels.resolution.Pinhole1D.apply",
+                "sasmodels.resolution2d.Pinhole2D.apply")
+    ctx = dict(name=name, dim=dim, kind=kind, smear=smear, pars0=pars0, pre0=pre0, disp=disp, length=length,
+               paths=paths, family="direct", entry=kind)
+    judge(u, label, paths, _o1_direct_handler(ctx), _o2_direct_handler(ctx), sample_ctx={"config": label},
+          is_ref=lambda p: p.result["pre_state"] == 1)
+    return u.r
+
+
+def _direct_conc(ctx, mm):
+    """Plain-float parameter dictionaries realising the path of the witness."""
+    pars = concretize(mm, ctx["pars0"])
+    disp = ctx["disp"]
+    if disp and pars.get(disp + "_pd", 0.0) != 0.0:
+        if ctx["length"] == 0:
+            # every point outside the limits of an angle: two points at +-500 degrees
+            pars.update({disp + "_pd": 500.0, disp + "_pd_n": 2, disp + "_pd_nsigma": 1.0})
+        else:
+            pars.update({disp + "_pd": 0.125, disp + "_pd_n": 2, disp + "_pd_nsigma": 2.0})
+    info = core.load_model_info(ctx["name"])
+    pre = generic_pars(info, ctx["pre0"])
+    return pars, pre
+
+
+def real_direct(kind, name, dim, smear, pars, pre, ops=(0, 1)):
+    model = C.real_model(name)
+    outs, errs = [], []
+    for op in ops:
+        for fill in (3.25, -17.5):
+            data = direct_data(dim, smear)
+            try:
+                with heap_content(fill):
+                    dm = None
+                    if op == 1:
+                        _r, dm = direct_request(kind, name, model, data, dict(pre))
+                    out, _dm = direct_request(kind, name, model, data, dict(pars), dm)
+                outs.append(bits(out))
+                errs.append(None)
+            except Exception as e:
+                outs.append(("raise:" + type(e).__name__).encode())
+                errs.append(repr(e))
+    return outs, errs
+
+
+def _o1_direct_handler(ctx):
+    def factory(rp):
+        def mk(i, j, hyps, phi):
+            def handler(m):
+                m2 = generic_model(hyps, [z3.Not(phi)], input_prefs(hyps)) or m
+                for mm in (m2, m):
+                    pars, pre = _direct_conc(ctx, mm)
+                    outs, errs = real_direct(ctx["kind"], ctx["name"], ctx["dim"], ctx["smear"], pars, pre)
+                    rep = len(set(outs)) > 1
+                    if rep:
+                        break
+                mesh = concretize(mm, rp[i].result["mesh"]) if rp[i].result["mesh"] is not None else []
+                return {"reproduced": bool(rep),
+                        "key": "C11/O1/direct/%s/%s" % (ctx["kind"], _mesh_class(mesh) if mesh else "no-mesh"),
+                        "what": "%s on %s: the same request gives different results after different histories "
+                                "(%s | %s)" % (ctx["kind"], ctx["name"], rp[i].result["notes"]["prefix"],
+                                               rp[j].result["notes"]["prefix"]),
+                        "inputs": {"replay": "direct", "model": ctx["name"], "dim": ctx["dim"], "kind": ctx["kind"],
+                                   "smear": ctx["smear"], "pars": jsonable(pars), "pre": jsonable(pre)},
+                        "detail": {"exceptions": errs, "identical": not rep}, "block": None}
+            return handler
+        return mk
+    return factory
+
+
+def real_o2_direct(kind, name, dim, smear, pars):
+    model = C.real_model(name)
+    data = direct_data(dim, smear)
+    W = Watch()
+    W.add("%s:data" % kind, data_arrays(data))
+    pars = RecDict(pars)
+    W.add("%s:pars" % kind, pars)
+    exc = None
+    with watched_kernel_args(W):
+        try:
+            direct_request(kind, name, model, data, pars)
+        except Exception as e:
+            exc = repr(e)
+    W.items[0] = (W.items[0][0], data_arrays(data), W.items[0][2])
+    changed = {lab: diffs[:4] for lab, phi, diffs, _l in W.check() if not z3.is_true(z3.simplify(phi))}
+    return changed, {"exception": exc}
+
+
+def _o2_direct_handler(ctx):
+    def mk(pi, wlabel, diffs, log):
+        def handler(m):
+            hyps = ctx["paths"][pi].constraints()
+            m2 = generic_model(hyps, [], input_prefs(hyps)) or m
+            pars, _pre = _direct_conc(ctx, m2)
+            changed, detail = real_o2_direct(ctx["kind"], ctx["name"], ctx["dim"], ctx["smear"], pars)
+            rep = wlabel in changed
+            return {"reproduced": bool(rep),
+                    "key": "C11/O2/direct/%s/%s" % (wlabel, _diff_kind(changed.get(wlabel) or diffs)),
+                    "what": "%s on %s modifies %s: %s" % (ctx["kind"], ctx["name"], wlabel,
+                                                          (changed.get(wlabel) or diffs)[:3]),
+                    "inputs": {"replay": "o2-direct", "model": ctx["name"], "dim": ctx["dim"], "kind": ctx["kind"],
+                               "smear": ctx["smear"], "pars": jsonable(pars), "watch": wlabel},
+                    "detail": detail, "block": None}
+        return handler
+    return mk
+
+
+# --------------------------------------------------------------------------
+# family F: the template cache (generate._template_cache)
+
+def real_template(relation):
+    """Real load_template on a scratch template directory: the cache holds an
+    entry read when the file had an older / the same mtime; fresh oracle = the
+    same call with an empty cache."""
+    import os
+    from vlib import scratch
+    d = os.path.join(scratch(), "c11_templates_%d" % os.getpid())
+    os.makedirs(d, exist_ok=True)
+    path = os.path.join(d, "t.c")
+    saved = generate.DATA_PATH, dict(generate._template_cache)
+    generate.DATA_PATH = d
+    try:
+        generate._template_cache.clear()
+        with open(path, "w") as f:
+            f.write("old text")
+        os.utime(path, (1000, 1000))
+        generate.load_template("t.c")
+        if relation == "older":
+            with open(path, "w") as f:
+                f.write("new text")
+            os.utime(path, (2000, 2000))
+        got = generate.load_template("t.c")[0]
+        generate._template_cache.clear()
+        want = generate.load_template("t.c")[0]
+    finally:
+        generate.DATA_PATH = saved[0]
+        generate._template_cache.clear()
+        generate._template_cache.update(saved[1])
+    return got, want
+
+
+def unit_template(_cfg):
+    label = "template-cache/load_template"
+    u = Unit(label)
+    m_now, m_old = symx.real("in.mtime"), symx.real("pre.cached_mtime")
+    text = lambda t: symx.uf("file_text_at", t)
+    op_t = z3.Int("pre.op")
+    A = [op_t >= 0, op_t <= 1, m_old.t <= m_now.t]
+
+    class _File:
+        def __enter__(self):
+            return self
+
+        def __exit__(self, *a):
+            return False
+
+        def read(self):
+            return text(m_now)
+
+    def fn():
+        saved = generate.getmtime, dict(generate._template_cache), generate.__dict__.get("open")
+        generate.getmtime = lambda path: m_now
+        generate.open = lambda path, *a: _File()
+        try:
+            generate._template_cache.clear()
+            op = int(Sym(op_t))
+            if op == 1:      # an entry written by an earlier load, when the file had mtime m_old
+                generate._template_cache["kernel_iq.c"] = (m_old, text(m_old), "<path>")
+            got, path = generate.load_template("kernel_iq.c")
+            return {"got": term(got), "op": op}
+        finally:
+            generate.getmtime = saved[0]
+            generate._template_cache.clear()
+            generate._template_cache.update(saved[1])
+            if saved[2] is None:
+                del generate.open
+            else:
+                generate.open = saved[2]
+
+    ex = symx.Explorer(max_paths=20, int_range=4)
+    paths = ex.explore(fn, A)
+    u.absorb(ex, paths)
+    u.reachable(label, A)
+    u.functions("sasmodels.generate.load_template")
+    for pi, p in enumerate(paths):
+        if p.cut or p.exc is not None:
+            u.error("path %d: %s" % (pi, p.cut or repr(p.exc)))
+            continue
+        H = p.constraints()
+        u.sample({"config": label, "path": pi, "cache_entry_present": bool(p.result["op"]),
+                  "path_condition": [str(c) for c in p.pc]})
+
+        def handler(m, p=p):
+            rel = "older" if symx.model_float(m, m_old.t) < symx.model_float(m, m_now.t) else "same"
+            got, want = real_template(rel)
+            return {"reproduced": got != want, "key": "C11/O1/template-cache/%s" % rel,
+                    "what": "load_template returns %r from a cache entry read at an %s mtime; a fresh process "
+                            "returns %r" % (got, rel, want),
+                    "inputs": {"replay": "template", "relation": rel}, "block": None}
+        u.prove("O1:template-text-is-the-current-file", p.result["got"] == term(text(m_now)), H, handler)
+    return u.r
+
+
+# --------------------------------------------------------------------------
+# replay of a stored counterexample (real code only)
+
+def replay(cex):
+    i = cex["inputs"]
+    kind = i["replay"]
+    if kind == "kernel":
+        mesh = [(v, np.array(d, dtype=float), np.array(w, dtype=float)) for v, d, w in i["mesh"]]
+        rep, detail = real_o1_kernel(i["model"], i["dim"], i["entry"], i["q"], mesh, i["cutoff"], i["mode"])
+    elif kind == "o2-kernel":
+        changed, detail = real_o2_kernel(i["model"], i["dim"], i["entry"], i["q"], i["pars"], 0.0, i["mono"])
+        rep, detail = i["watch"] in changed, dict(detail, changed=changed)
+    elif kind == "o2-mesh":
+        mesh = [(v, np.array(d, dtype=float), np.array(w, dtype=float)) for v, d, w in i["mesh"]]
+        changed, detail = real_o2_mesh(i["model"], i["dim"], i["q"], mesh, 0.0)
+        rep, detail = i["watch"] in changed, dict(detail, changed=changed)
+    elif kind in ("sasview", "o2-sasview"):
+        req = dict(i["req"], disp={k: (np.array(v[0], dtype=float), np.array(v[1], dtype=float))
+                                   for k, v in i["req"]["disp"].items()})
+        if kind == "sasview":
+            outs, errs = real_sasview(i["model"], i["entry"], req, i["pre"], i["q"])
+            rep, detail = len(set(outs)) > 1, {"exceptions": errs}
+        else:
+            changed, detail = real_o2_sasview(i["model"], i["entry"], req, i["q"])
+            rep, detail = i["watch"] in changed, dict(detail, changed=changed)
+    elif kind == "direct":
+        outs, errs = real_direct(i["kind"], i["model"], i["dim"], i["smear"], i["pars"], i["pre"])
+        rep, detail = len(set(outs)) > 1, {"exceptions": errs}
+    elif kind == "o2-direct":
+        changed, detail = real_o2_direct(i["kind"], i["model"], i["dim"], i["smear"], i["pars"])
+        rep, detail = i["watch"] in changed, dict(detail, changed=changed)
+    elif kind == "template":
+        got, want = real_template(i["relation"])
+        rep, detail = got != want, {"got": got, "fresh": want}
+    else:
+        raise ValueError("unknown replay kind %r" % kind)
+    print("%s: %s" % ("REPRODUCED" if rep else "not reproduced", cex.get("what", "")[:300]))
+    print(detail)
+    return 1 if rep else 0
+
+
+# --------------------------------------------------------------------------
+# enumeration
+
+def _empty_candidate(info, dim):
+    """Parameter whose distribution is cut to nothing: an angle in 2-D when the
+    model has one (the realistic case), else the first dispersible parameter."""
+    if dim == "2d":
+        ori = [p.name for p in info.parameters.call_parameters[2:2 + info.parameters.npars]
+               if p.polydisperse and p.type == "orientation"]
+        if ori:
+            return ori[0]
+    return first_pd(info, dim)
+
+
+def configs(chk):
+    items = []
+    dll = list(DLL_MODELS)
+    if not chk.quick:
+        extra = [n for n in core.list_models() if not callable(core.load_model_info(n).Iq) and n not in dll]
+        dll += extra[::2]
+    for name in dll:
+        info = core.load_model_info(name)
+        for dim in ("1d", "2d"):
+            pd = first_pd(info, dim)
+            items.append(("dll", (name, dim, pd, 2, "call_kernel", None, False)))
+            if pd:
+                items.append(("dll", (name, dim, _empty_candidate(info, dim), 0, "call_kernel", None, False)))
+            if dim == "1d" or name in ("sphere", "cylinder", "hollow_cylinder"):
+                items.append(("dll", (name, dim, pd, 2, "call_Fq", None, False)))
+            if name in ("sphere", "cylinder", "vesicle") and pd:
+                items.append(("dll", (name, dim, pd, 2, "call_kernel", None, True)))
+        slds = [p.name for p in info.parameters.call_parameters[2:2 + info.parameters.npars] if p.type == "sld"]
+        if info.parameters.nmagnetic and (name in ("sphere", "cylinder", "core_shell_sphere") or not chk.quick):
+            items.append(("dll", (name, "2d", None, 2, "call_kernel", slds[0], False)))
+    for name in PY_MODELS:
+        for dim in ("1d", "2d"):
+            items.append(("py", (name, dim, None, 2, "call_kernel", None)))
+    items.append(("py", ("line", "1d", None, 2, "call_Fq", None)))
+    items.append(("py", ("teubner_strey", "2d", None, 2, "call_kernel", "sld_a")))
+    for dim in ("1d", "2d"):
+        items.append(("py", ("c11_pyshell", dim, "radius", 2, "call_kernel", None)))
+        items.append(("py", ("c11_pyshell", dim, "thickness", 0, "call_kernel", None)))
+        items.append(("py", ("c11_pyshell", dim, "thickness", 2, "call_Fq", None)))
+    er, sf = "radius_effective_mode", "structure_factor_mode"
+    items += [("comp", c) for c in [
+        ("sphere@hardsphere", "1d", (), {er: 0, sf: 0}, False, False),
+        ("sphere@hardsphere", "1d", (("radius", 2),), {er: 1, sf: 1}, False, False),
+        ("sphere@hardsphere", "1d", (("radius", 0),), {er: 1, sf: 0}, False, False),
+        ("cylinder@hardsphere", "2d", (("theta", 2),), {er: 1, sf: 0}, False, False),
+        ("cylinder@hardsphere", "2d", (), {er: 0, sf: 1}, False, False),
+        ("sphere+cylinder", "1d", (("A_radius", 2),), {}, False, False),
+        ("sphere+cylinder", "2d", (("B_theta", 0),), {}, False, False),
+        ("sphere*cylinder", "2d", (), {}, True, True),
+        ("power_law+sphere", "1d", (), {}, False, False),
+        ("sphere+sphere@hardsphere", "1d", (("B_radius", 2),), {}, False, True),
+    ]]
+    items += [("sasview", c) for c in [
+        ("sphere", "1d", "radius", 2, "calculate_Iq", None),
+        ("sphere", "1d", "radius", 0, "evalDistribution", None),
+        ("cylinder", "2d", "theta", 0, "evalDistribution", None),
+        ("cylinder", "2d", "radius", 2, "calculate_Iq", None),
+        ("core_shell_sphere", "1d", None, 2, "calculate_Iq", None),
+        ("hardsphere", "1d", "radius_effective", 2, "evalDistribution", None),
+        ("sphere", "2d", None, 2, "calculate_Iq", "sld"),
+    ]]
+    items += [("direct", c) for c in [
+        ("sphere", "1d", "radius", 2, "DirectModel", False),
+        ("sphere", "1d", None, 2, "DirectModel", True),
+        ("cylinder", "2d", "theta", 0, "DirectModel", False),
+        ("cylinder", "2d", "radius", 2, "DirectModel", False),
+        ("ellipsoid", "1d", "radius_polar", 2, "DirectModel", False),
+        ("sphere", "1d", "radius", 2, "Iq", False),
+        ("cylinder", "2d", "theta", 0, "Iqxy", False),
+    ]]
+    items.append(("template", None))
+    return items
+
+
+UNITS = {"dll": unit_dll, "py": unit_py, "comp": unit_comp, "sasview": unit_sasview,
+         "direct": unit_direct, "template": unit_template}
+
+
+def _label(item):
+    kind, cfg = item
+    return "%s/%s" % (kind, "/".join(str(x) for x in (cfg or ())))
+
+
+def _dispatch(item):
+    kind, cfg = item
+    return UNITS[kind](cfg)
+
+
+def _prebuild(name):
+    from vlib.llsym import build
+    build.model_ir(core.load_model_info(name))
+    return new_unit("prebuild " + name)
+
+
+def run(chk):
+    chk.explanation = (
+        "One-step, arbitrary-pre-state (2-safety) check on the real code executed on z3 proxies. Every retained "
+        "piece of state (DllKernel.result; PyKernel._parameter_vector/res/result and PyInput.q; the lazy results "
+        "of ProductKernel/MixtureKernel and the leaf buffers under them; DirectModel._kernel/Iq_calc/results; "
+        "SasviewModel._model, params, dispersion; generate._template_cache) holds fresh unconstrained symbols, and "
+        "structural state (compiled model cached or not, kernel cached or not, instance cloned, entry evaluated "
+        "before with other symbolic parameters) is produced by a prefix of real operations selected by a symbolic "
+        "integer through the explorer. The request then runs through the real direct_model.call_kernel/call_Fq, "
+        "DirectModel.__call__, Iq/Iqxy, SasviewModel.calculate_Iq/evalDistribution/setParam/set_dispersion/clone, "
+        "make_kernel_args, DllModel/PyModel/ProductModel/MixtureModel.make_kernel and the kernels (compiled "
+        "kernels by symbolic execution of the IR of their generated source; python kernels by the real "
+        "PyKernel/_loops; product/mixture over recording stub leaves). O1: for every pair of completed paths "
+        "(for prefix units: every pair with a fresh-state path) z3 proves that the two path conditions, the second "
+        "with all non-input symbols renamed, imply equal result terms (incl. lazy intermediate results and "
+        "refusals). O2: z3 proves per path that each caller-owned dict, q array, mesh, value vector and "
+        "CallDetails equals its snapshot from before the entry point (key presence and shapes are structure). "
+        "No invariant on the retained state is assumed, so histories of any length are covered.")
+    chk.bounds = {
+        "models": "compiled: %s (thorough: + every second other compiled model); python: %s + a synthetic python "
+                  "shell model with dispersible parameters; compositions: sphere@hardsphere, cylinder@hardsphere, "
+                  "sphere+cylinder, sphere*cylinder, power_law+sphere, sphere+sphere@hardsphere"
+                  % (", ".join(DLL_MODELS), ", ".join(PY_MODELS)),
+        "mesh": "mono; one dispersed parameter with 2 symbolic points; one distribution with 0 points (empty mesh); "
+                "magnetic block of the first SLD symbolic (2-D); mono flag",
+        "q": "2 symbolic points (1-D), 1 symbolic (qx,qy) (2-D); DirectModel / Iq / Iqxy: concrete 2-point grid, "
+             "perfect and 5% pinhole resolution",
+        "prefix": "SasviewModel: 4 prefixes (fresh class; same instance evaluated before; other instance "
+                  "evaluated before; clone of an evaluated instance); DirectModel/Iq/Iqxy: 2 (fresh; evaluated before)",
+        "solver": "20 s per UF-abstracted query, 60 s per full query; unknown = inconclusive",
+    }
+    chk.outside = [
+        "bit-identity across processes / rounding (doubles are reals): the claim is no dependence on retained "
+        "state and unmodified inputs",
+        "writes to the value vector or q by the compiled C code itself (the interpreter works on copies of the "
+        "driver's buffers; kernel_iq.c declares them const)",
+        "interior of the leaf functions, incl. python Iq functions writing to their arguments in place",
+        "Gxi / SESANS and slit resolution objects, bumps_model, OpenCL/CUDA kernels, custom._MODULE_CACHE "
+        "(reload semantics: C17)",
+        "template cache entries newer than the file (mtime going backwards: C17)",
+        "NaN filtering in the python loop (isnan is false on proxies)",
+    ]
+    chk.stubs = list(SHIMS) + list(C.SHIMS) + [
+        "generate.getmtime / generate.open -> symbolic mtime and file text (template unit only)",
+        "replays of entry points that allocate their kernel inside the call (SasviewModel, DirectModel, Iq/Iqxy) "
+        "run with np.empty returning memory of two different chosen contents (heap_content): the content of "
+        "uninitialised memory cannot be steered through the public interface; kernel-level replays pollute a "
+        "kernel object by a real earlier call instead",
+    ]
+    chk.assumptions = [
+        "call_Fq: 0 <= radius_effective_mode <= min(#modes, 2)",
+        "magnetic 2-D units: qx^2 + qy^2 > 1e-16",
+        "prefix calls use parameter values inside the parameter limits and cutoff 0",
+        "3-leaf and magnetic compositions: leaf total weight and shell volume non-zero (keeps the path count down)",
+        "template cache: the cached entry was read when the file's mtime was <= the current one, and the file "
+        "text is a function of its mtime",
+    ]
+    items = configs(chk)
+    if getattr(chk, "only", None):
+        items = [it for it in items if chk.only in _label(it)]
+    need = sorted({cfg[0] for kind, cfg in items if kind in ("dll", "sasview", "direct")})
+    pmap(_prebuild, need)
+    # long units first
+    order = {"sasview": 0, "direct": 1, "comp": 2, "dll": 3, "py": 4, "template": 5}
+    items.sort(key=lambda it: (order[it[0]], 0 if "call_Fq" in _label(it) else 1))
+    chk.add(pmap(_dispatch, items))
+    chk.extra = {
+        "pairs_without_common_request": sum(u.get("pairs_without_common_request", 0) for u in chk.units),
+        "max_state_symbols_in_a_path": max([u.get("max_state_symbols_in_a_path", 0) for u in chk.units] or [0]),
+    }
